@@ -91,9 +91,14 @@ pub fn replay(path: &str) -> i32 {
     let run = Run::new(&prop, "quick");
     let a = once(&case, &run);
     let b = once(&case, &run);
-    if a.viol_count != b.viol_count {
+    // both executions must agree on the verdict; when both violate, a different number of messages is itself part
+    // of the finding (the code under test answers differently on repetition), not a problem of the replay
+    if (a.viol_count == 0) != (b.viol_count == 0) {
         eprintln!("replay is not deterministic: {} vs {} violations", a.viol_count, b.viol_count);
         return 2;
+    }
+    if a.viol_count != b.viol_count {
+        println!("(the two executions of the replay report {} and {} violations: the code under test is not deterministic)", a.viol_count, b.viol_count);
     }
     for (id, (_, w)) in &a.known {
         println!("KNOWN-FINDING: property={} {} ({})", prop, id, w);
